@@ -2,7 +2,7 @@
 import concurrent.futures, itertools, json, os, posixpath, shutil, subprocess, tempfile
 import core, findings
 from core import World, hx, Line, unhx
-from gen import Gen
+from gen import Gen, PUNCT_NAMES
 from suites import run_suite
 
 LEAN_MODULES = ['GoSnaps.Props.C11', 'GoSnaps.Props.Tie.Path']
@@ -10,7 +10,8 @@ LEAN_MODULES = ['GoSnaps.Props.C11', 'GoSnaps.Props.Tie.Path']
 DIRS = ['-', 'snaps', 'a/b/__snapshots__', '../shared', './x/../y', '/abs/dir', '/abs/./d/../e/']
 FILES = ['-', 'custom', 'my_test', 'api.v1', 'with.two.dots']
 EXTS = ['-', '.txt', '.json']
-NAMES = ['TestA', 'TestA/sub_case', 'TestA/x/y', 'TestB#01', 'TestR/ratio/1.25', 'TestV1.2']
+NAMES = ['TestA', 'TestA/sub_case', 'TestA/x/y', 'TestB#01', 'TestR/ratio/1.25', 'TestV1.2'] + PUNCT_NAMES + [
+    'TestTrail/', 'TestDbl//slash', 'TestDot/.', 'TestDot/..', 'TestDot/.hidden', 'Test_/_', 'TestLong/' + 'n' * 120]
 
 
 def formula(caller, d, fn, ext, name, standalone):
@@ -67,7 +68,7 @@ def gen_program(r, idx):
     """a small module; returns (files, expected locations relative to module root, description)"""
     pkgdir = r.choice(['', 'sub', 'sub/pkg/deep'])
     pkgname = 'prog' if not pkgdir else pkgdir.split('/')[-1]
-    shapes = sorted(set(['direct', 'helper-nontest', 'closure', 'goroutine', 'subtest', 'deep-helpers', 'standalone', 'config', 'suite-nontest', 'deep-recursion', 'dotted-names', 'shared-helper', 'shared-helper']))
+    shapes = sorted(set(['direct', 'helper-nontest', 'closure', 'goroutine', 'subtest', 'deep-helpers', 'standalone', 'config', 'suite-nontest', 'deep-recursion', 'dotted-names', 'punct-names', 'shared-helper', 'shared-helper']))
     # every shape at least once per run, then random ones
     shape = shapes[idx] if idx < len(shapes) else r.choice(shapes)
     tf = 'x%d_test.go' % idx
@@ -110,6 +111,18 @@ def gen_program(r, idx):
         body = 'func TestShape(t *testing.T) {\n\tt.Run("ratio/1.25", func(t *testing.T) { snaps.MatchStandaloneSnapshot(t, "a") })\n\tt.Run("ratio/1.5", func(t *testing.T) { snaps.MatchStandaloneSnapshot(t, "b") })\n\tsnaps.WithConfig(snaps.Filename("api.v1")).MatchSnapshot(t, "v1")\n\tsnaps.WithConfig(snaps.Filename("api.v2")).MatchSnapshot(t, "v2")\n}\n'
         exp += [posixpath.join(base, 'TestShape_ratio_1.25_1.snap'), posixpath.join(base, 'TestShape_ratio_1.5_1.snap'),
                 posixpath.join(base, 'api.v1.snap'), posixpath.join(base, 'api.v2.snap')]
+    elif shape == 'punct-names':
+        # table tests named after routes, paths, keys, sentences: the real runner turns spaces into `_`
+        # and keeps every other printable character; the standalone file is named after the result with
+        # only `/` replaced
+        subs = ['GET /users?page=2', 'GET /users_page=2', 'key:value', 'a*b', 'say "hi"', '<nil>', 'x|y', 'C:\\dir\\f.txt', 'caf\u00e9 au lait', 'a+b=c&d', "it's", '{x}(y)[z]']
+        r.shuffle(subs)
+        subs = subs[:r.randint(4, len(subs))]
+        runs = ''.join('\tt.Run(%s, func(t *testing.T) { snaps.MatchStandaloneSnapshot(t, %s); snaps.MatchSnapshot(t, %s) })\n' % (json.dumps(x), json.dumps('sa ' + x), json.dumps(x)) for x in subs)
+        body = 'func TestShape(t *testing.T) {\n%s}\n' % runs
+        exp.append(posixpath.join(base, stem + '.snap'))
+        for x in subs:
+            exp.append(posixpath.join(base, ('TestShape/' + x.replace(' ', '_')).replace('/', '_') + '_1.snap'))
     elif shape == 'closure':
         body = 'func TestShape(t *testing.T) {\n\tf := func() { func() { snaps.MatchSnapshot(t, "v") }() }\n\tf()\n}\n'
         exp.append(posixpath.join(base, stem + '.snap'))
